@@ -73,7 +73,7 @@ def payloads(sentinel: str, tag: str):
         "subscript": f"__builtins__.__dict__['__import__']('os').system('touch {s} #{m}')",
         "conditional": f"1 if __import__('os').system('touch {s} #{m}') else 0",
         "getattr": f"getattr(__import__('os'),'system')('touch {s} #{m}')",
-        "subprocess": f"__import__('subprocess').Popen(['touch','{s}','{m}'])",
+        "subprocess": f"__import__('subprocess').Popen(['touch','{s}','{s}.{m}'])",
         "bool-ops": f"1 and __import__('os').system('touch {s} #{m}') or 0",
         "no-blank": f"__import__('os').system('touch\\t{s}')or'{m}'",
     }
